@@ -13,6 +13,7 @@ mod cases;
 mod gal;
 mod genlib;
 mod lint;
+mod meta;
 mod rng;
 
 use std::path::PathBuf;
@@ -62,6 +63,8 @@ fn main() {
     match a.cmd.as_str() {
         "c08" => c08::generate(a.seed, a.n, a.thorough).write(&a.out, a.shards, a.only),
         "c10" => c10::generate(a.seed, a.n, a.thorough).write(&a.out, a.shards, a.only),
+        "c13" => meta::generate_c13(a.seed, a.n, a.thorough).write(&a.out, a.shards, a.only),
+        "c14" => meta::generate_c14(a.seed, a.n, a.thorough).write(&a.out, a.shards, a.only),
         "c15" => c15::generate(a.seed, a.n, a.thorough).write(&a.out, a.shards, a.only),
         "c01" => c01::generate(a.seed, a.n, a.thorough).write(&a.out, a.shards, a.only),
         "c06" => c06::generate(a.seed, a.n, a.thorough).write(&a.out, a.shards, a.only),
